@@ -32,6 +32,17 @@ def doc_cost(U, Psi, Thp, a_tik, a_oth, reg, square):
     return float(c / q)
 
 
+def coef_far(d, coef_ref, Psi, alpha, c_ref):
+    """Is the coefficient difference d more than solver accuracy explains?  A solver that is accurate to eps in the
+    cost pins the coefficients only to sqrt(2 eps / lambda_min(Hessian)); the Hessian of the documented cost is
+    2 (Psi Psi^T + alpha I) / q.  eps: 1e-7 absolute or 1e-5 relative (the interior-point tolerances)."""
+    q = Psi.shape[1]
+    lam = float(np.min(np.linalg.eigvalsh(Psi @ Psi.T + alpha * np.eye(Psi.shape[0])))) / q
+    eps = max(1e-7, 1e-5 * abs(c_ref))
+    bound = np.sqrt(2 * eps / max(lam, 1e-300))
+    return d > max(5e-3 * max(1.0, float(np.max(np.abs(coef_ref)))), 3 * bound)
+
+
 def local_search(U0, f, rng):
     best = f(U0); bu = U0
     for scale in (1e-2, 1e-3):
@@ -99,8 +110,7 @@ def run(res, tier):
             e = pykoop.Edmd(alpha=alpha).fit(X, n_inputs=nu, episode_feature=True)
             c_e = f(e.coef_.T)
             d = float(np.max(np.abs(e.coef_ - reg.coef_)))
-            well = np.linalg.cond(Psi) < 30
-            if c_u > c_e + 1e-3 * max(1e-3, abs(c_e)) or (well and d > 5e-3 * max(1.0, float(np.max(np.abs(e.coef_))))):
+            if c_u > c_e + 1e-3 * max(1e-3, abs(c_e)) or coef_far(d, e.coef_, Psi, alpha, c_e):
                 info = dict(what='with pure Tikhonov regularisation the result does not coincide with Edmd',
                             cost_edmd=c_e, coef_difference=d)
         else:
@@ -139,8 +149,7 @@ def run(res, tier):
                 dist[f'sweep/{inv}'] = dist.get(f'sweep/{inv}', 0) + 1
                 c_u = doc_cost(reg.coef_.T, Psi, Thp, alpha, 0.0, 'tikhonov', False)
                 d = float(np.max(np.abs(e.coef_ - reg.coef_)))
-                well = np.linalg.cond(Psi) < 30
-                if c_u > c_e + 1e-3 * max(1e-3, abs(c_e)) or (well and d > 5e-3 * max(1.0, float(np.max(np.abs(e.coef_))))):
+                if c_u > c_e + 1e-3 * max(1e-3, abs(c_e)) or coef_far(d, e.coef_, Psi, alpha, c_e):
                     bad.append(dict(what='LmiEdmd with this inv_method does not return the Edmd optimum under pure Tikhonov '
                                          'regularisation', inv_method=inv, alpha=alpha, cost=c_u, cost_edmd=c_e,
                                     coef_difference=d, X=X.tolist()))
@@ -175,7 +184,7 @@ def run(res, tier):
                 continue
             c_u = doc_cost(reg.coef_.T, Psi, Thp, alpha, 0.0, 'tikhonov', False)
             d = float(np.max(np.abs(e.coef_ - reg.coef_)))
-            if c_u > c_e + 1e-3 * max(1e-3, abs(c_e)) or (np.linalg.cond(Psi) < 30 and d > 5e-3 * max(1.0, float(np.max(np.abs(e.coef_))))):
+            if c_u > c_e + 1e-3 * max(1e-3, abs(c_e)) or coef_far(d, e.coef_, Psi, alpha, c_e):
                 bad.append(dict(what='LmiEdmd with this inv_method does not return the Edmd optimum under pure Tikhonov '
                                      'regularisation', inv_method=inv, alpha=alpha, cost=c_u, cost_edmd=c_e, pivot_order=perm.tolist(),
                                 coef_difference=d, X=X.tolist()))
